@@ -27,9 +27,10 @@ Definition upd (f : bals) (a : addr) (v : Z) : bals := fun x => if N.eqb x a the
 
 (* ---- code variants: [repaired] is the current source, [original] the source before the fix: commits ---- *)
 Record variant := { gas_clamped : bool;        (* contractExecutor.Execute charges min(balance, fee) *)
-                    cantransfer_signed : bool  (* vm.CanTransfer refuses a negative amount *) }.
-Definition repaired : variant := {| gas_clamped := true; cantransfer_signed := true |}.
-Definition original : variant := {| gas_clamped := false; cantransfer_signed := false |}.
+                    cantransfer_signed : bool; (* vm.CanTransfer refuses a negative amount *)
+                    unstake_clamped : bool     (* opUnStake schedules min(requested, released) for the origin *) }.
+Definition repaired : variant := {| gas_clamped := true; cantransfer_signed := true; unstake_clamped := true |}.
+Definition original : variant := {| gas_clamped := false; cantransfer_signed := false; unstake_clamped := false |}.
 
 (* ---- ledger ---- *)
 Record led := { bal : bals;
@@ -53,6 +54,11 @@ Inductive ev :=
 | EValue (from to : addr) (v : Z)   (* Call / CallCode / create / AuthCall: CanTransfer check, then vm.Transfer *)
 | ESuicide (a b : addr)             (* opSuicide: AddBalance(b, balance a); Suicide(a) zeroes a *)
 | ELock (a : addr) (v : Z)          (* STAKE opcode -> MinerManager.AddStake(this, ..): checked debit, stake grows *)
+| EUnstake (origin acct : addr) (req rel : Z) (h : N)
+    (* UNSTAKE / UNSTAKEALL opcode that passed GetRefundStake: [rel] (whole tokens) leaves the stake of the miner whose
+       account [acct] is the running contract; RefundManager.Add schedules for height h: rel - req for acct when
+       rel > req, and for the tx origin the requested amount req (original) / min(req, rel) (repaired).
+       UNSTAKEALL is req = 0. *)
 | ESnap (id : N)                    (* StateDB.Snapshot() = id *)
 | ERevert (id : N).                 (* StateDB.RevertToSnapshot(id) *)
 
@@ -83,6 +89,10 @@ Definition exec_ev (var : variant) (e : ev) (c : led * list (N * led)) : led * l
     | (b', true) => ({| bal := b'; locked := locked l + v; sched := sched l; burned := burned l |}, st)
     | (_, false) => (l, st)
     end
+  | EUnstake o a req rel h =>
+    let granted := if unstake_clamped var then Z.min req rel else req in
+    let s1 := if req <? rel then (h, a, rel - req) :: sched l else sched l in
+    ({| bal := bal l; locked := locked l - rel; sched := (h, o, granted) :: s1; burned := burned l |}, st)
   | ESnap id => (l, (id, l) :: st)
   | ERevert id => revert_to id st l
   end.
@@ -258,6 +268,15 @@ Definition ev_closed (U : list addr) (e : ev) : Prop :=
   | EValue f t _ => In f U /\ In t U
   | ESuicide a b => In a U /\ In b U
   | ELock a _ => In a U
+  | EUnstake o a _ _ _ => In o U /\ In a U
+  | _ => True
+  end.
+
+(* amounts the opcodes take from unsigned sources: uint256 stack words, uint64 whole tokens *)
+Definition ev_wf (e : ev) : Prop :=
+  match e with
+  | ELock _ v => 0 <= v
+  | EUnstake _ _ req rel _ => 0 <= req /\ 0 <= rel
   | _ => True
   end.
 
@@ -271,10 +290,11 @@ Definition tx_closed (U : list addr) (t : tx) : Prop :=
   | TOperatorNode src _ => In src U
   end.
 
-(* gas fees are uint64 * price, refund amounts uint64 * 10^18, rewards Float64ToBigInt of a positive float *)
+(* gas fees are uint64 * price, stakes and refund amounts uint64 * 10^18, rewards Float64ToBigInt of a positive float *)
 Definition tx_wf (t : tx) : Prop :=
   match t with
-  | TContract _ _ _ _ _ _ _ g stale => 0 <= g /\ match stale with Some s => 0 <= s | None => True end
+  | TContract _ _ _ _ _ tr _ g stale => 0 <= g /\ match stale with Some s => 0 <= s | None => True end /\ Forall ev_wf tr
+  | TLock _ stake _ => 0 <= stake
   | TRefundReq _ amount _ _ _ => 0 <= amount
   | _ => True
   end.
